@@ -807,6 +807,7 @@ def check(ctx):
     from . import c14
     from ..report import Renamed
     c14.rule_reindex(Renamed(ctx, {'*': 'R12'}))
+    c14.rule_reduce_axis(Renamed(ctx, {'*': 'R12'}))          # Dataset.take_axis / sort_axis / reindex_axis run through Dataset.reduce_axis
     d = default_of(ctx.fn(AL + 'align'), 'join')
     if d != const('outer'):
         ctx.violated('R2', ctx.fn(AL + 'align'), 'def align(join=...)', "align defaults to join='outer'")
